@@ -124,11 +124,33 @@ IntoBench ==
   /\ Cardinality(G) + Cardinality({l \in G : NeedsHelper(st.g[l].t)}) <= MaxGates + 2
   /\ Step(DoIntoBench(st, LAMBDA l : "h_" \o l), [a |-> "into_bench"])
 
+(* replace_subcircuit: the cone consisting of one gate r (cut = its operands) is replaced by a
+   relabelled copy of itself; leaves are renamed to the copy's input labels by the call *)
+DistinctSeq(q) == SelectSeq(q, LAMBDA x : TRUE)
+ReplaceSubcircuit ==
+  \E r \in {l \in G : st.g[l].t # "INPUT" /\ st.g[l].o # <<>>} :
+    LET ops == st.g[r].o
+        leaves == SetToSeq(SeqSet(ops))
+        tag == "z" \o ToString(Len(hist))
+        inL(j) == tag \o "i" \o ToString(j)
+        outL == tag \o "o"
+        idx(x) == CHOOSE j \in DOMAIN leaves : leaves[j] = x
+        sub == [g |-> [l \in {inL(j) : j \in DOMAIN leaves} \cup {outL} |->
+                         IF l = outL THEN Gate(st.g[r].t, [j \in DOMAIN ops |-> inL(idx(ops[j]))])
+                         ELSE Gate("INPUT", <<>>)],
+                i |-> [j \in DOMAIN leaves |-> inL(j)], o |-> <<outL>>, u |-> <<>>, b |-> <<>>]
+        im == [j \in DOMAIN leaves |-> <<leaves[j], inL(j)>>]
+        om == <<<<r, outL>>>>
+    IN /\ Cardinality(G) <= MaxGates + 1
+       /\ PreReplaceSub(st, NormD(sub), im, om)
+       /\ Step(DoReplaceSub(st, NormD(sub), im, om),
+               [a |-> "replace_subcircuit", sub |-> sub, im |-> im, om |-> om, equiv |-> TRUE])
+
 Init == st = EmptyState /\ hist = <<>>
 Next == /\ Len(hist) < Depth
         /\ \/ AddGate \/ RemoveGate \/ RenameGate \/ MarkOutput \/ SetOutputs \/ SetInputs
            \/ OrderInputs \/ OrderOutputs \/ ReplaceInputs \/ MakeBlock \/ DeleteBlock
-           \/ RemoveBlock \/ Connect \/ IntoBench
+           \/ RemoveBlock \/ Connect \/ IntoBench \/ ReplaceSubcircuit
 Spec == Init /\ [][Next]_vars
 
 View == st
